@@ -3,7 +3,7 @@
 
    The framing state is the buffer `s_msg` (idle = empty).  It evolves independently of the boards:
    s_msg after a byte is `next (s_msg s) b` whatever _parse does (including raising). *)
-From DS Require Import Base.Prelude Gen.RcvTables Model.RcvModel Proofs.RcvAssoc Proofs.RcvProofs Proofs.RcvFraming.
+From DS Require Import Base.Prelude Gen.RcvTables Model.RcvModel Proofs.RcvAssoc Proofs.RcvProofs Proofs.RcvBoards Proofs.RcvFraming Proofs.RcvDecode Proofs.RcvBytes Proofs.RcvBytes2 Proofs.RcvTotal.
 
 (* the buffer after any byte sequence is a function of the buffer before and of the bytes only *)
 Theorem C03_receiver_framing_independent : forall clk mkdate render bs s,
@@ -62,3 +62,46 @@ Theorem C03_receiver_ext_len : forall k sa ma cid p ck eot rest,
   zlen rest + 5 = flen (ext_code k) (hd 0 rest).
 Proof. exact ext_frame_len. Qed.
 Print Assumptions C03_receiver_ext_len.
+
+(* ---- which frames can make _parse raise (tree with fixes 25 and 25b) ---- *)
+(* System._parse raises only while executing one of the two time queries (inquiry, get_time) and only when
+   the rendering oracle is undefined on the instant asked for (last_cmd_date - time_offset beyond year 9999:
+   OverflowError).  No other command, parameter string, board type or state raises.  Whatever happens the
+   buffer is idle afterwards (C03_receiver_framing_independent: the buffer was reset before _parse). *)
+Theorem C03_receiver_parse_exception_class : forall clk mkdate render sl t m sl' t',
+  (5 <= length m)%nat -> handle clk mkdate render sl t m = (sl', t', OExc) ->
+  exists sa q k, decode m = Some (sa, q) /\ classify (q_cmd q) = Some k /\ time_query k /\
+                 exists z, render z = None.
+Proof. exact handle_exc_class. Qed.
+Print Assumptions C03_receiver_parse_exception_class.
+
+(* with a rendering that is defined everywhere, parse never raises: any state, any byte *)
+Theorem C03_receiver_parse_never_raises : forall clk mkdate render, (forall z, render z <> None) ->
+  forall s b, snd (parse clk mkdate render s b) <> OExc.
+Proof. exact parse_never_raises. Qed.
+Print Assumptions C03_receiver_parse_never_raises.
+
+(* a frame that completes in the last branch of System.parse (len(msg) == 8 + msg[5], i.e. at 8 bytes or
+   more) never raises, whatever the oracles: the time queries complete at 5 or 7 bytes.  buf_inv3 holds of
+   every reachable buffer (C03_receiver_reachable_inv3).  Hence moving the buffer reset after _parse in that
+   branch only (seeded mutant C18/m2) does not change the behaviour of the fixed tree. *)
+Theorem C03_receiver_last_branch_never_raises : forall clk mkdate render s b m,
+  buf_inv3 (s_msg s) -> frame_step (s_msg s) b = FDone m -> 8 <= zlen m ->
+  snd (parse clk mkdate render s b) <> OExc.
+Proof. exact last_branch_never_raises. Qed.
+Print Assumptions C03_receiver_last_branch_never_raises.
+
+Theorem C03_receiver_reachable_inv3 : forall clk mkdate render bs s,
+  buf_inv3 (s_msg s) -> buf_inv3 (s_msg (fst (run clk mkdate render s bs))).
+Proof. exact run_inv3. Qed.
+Print Assumptions C03_receiver_reachable_inv3.
+
+(* the exception is reachable (rendering undefined) and the parser is idle and answering afterwards *)
+Theorem C03_receiver_raising_reachable_and_idle :
+  let r := run (fun n => Z.of_nat n) (fun _ => Some 0) (fun _ => None) (init_sys 0 1 [1])
+               ([1; 1; 1; 99; 0] ++ [1; 1; 1; 97; 1] ++ [1; 1; 1; 106; 2]) in
+  snd r = repeat OTrue 4 ++ [OReply [2; 1; 1; 99; 0; 0; 8; 0; 0; 0; 0; 0; 0; 0; 0]] ++
+          repeat OTrue 4 ++ [OExc] ++ repeat OTrue 4 ++ [OReply [2; 1; 1; 106; 2; 0; 1; 126]] /\
+  s_msg (fst r) = [].
+Proof. exact raising_reachable_and_idle. Qed.
+Print Assumptions C03_receiver_raising_reachable_and_idle.
